@@ -370,6 +370,8 @@ def judge(ctx, binary, scripts, traces, tag, seen_hist):
                 if nontrivial(h):
                     ctx.cov["distinct_nontrivial"] += 1
         for rej in rejected:
+            if len(ctx.violations) >= 8:
+                break              # enough reproduced witnesses: do not spend the run re-executing every further rejection
             w = witness_of(rej)
             script = dict(sc)
             script["histories"] = [script_of_history(rej["hist"])]
